@@ -67,12 +67,13 @@ func c18EvalOrder(c *Ctx, cs Case) {
 	}
 	// a value of odd length holds len/2 16-bit entries and one byte that is no entry: the names are those of the entries
 	{
-		what := "BootOrder does not decode to the firmware names of the Boot#### variables"
+		what, matcher := "BootOrder does not decode to the firmware names of the Boot#### variables", "c18.lowercase_boot_names"
 		if len(order)%2 == 1 {
+			matcher = "c18.odd_length_phantom_entry" // F35
 			what = "BootOrder of odd length does not decode to exactly the names of its 16-bit entries (the trailing byte is not an entry)"
 		}
 		if strings.Join(names, ",") != strings.Join(want, ",") {
-			c.Fail(Failure{Kind: "property", Matcher: "c18.lowercase_boot_names", What: what, Case: cs, Go: strings.Join(names, ","), Spec: strings.Join(want, ",")})
+			c.Fail(Failure{Kind: "property", Matcher: matcher, What: what, Case: cs, Go: strings.Join(names, ","), Spec: strings.Join(want, ",")})
 		} else if len(resolveErr) > 0 {
 			c.Fail(Failure{Kind: "property", What: "a returned boot name does not resolve through GetBootEntry although the variable exists", Case: cs, Go: strings.Join(resolveErr, "; ")})
 		}
@@ -113,7 +114,7 @@ func c18EvalOrder(c *Ctx, cs Case) {
 		c.Fail(Failure{Kind: "tie", What: "boot.order", Case: cs, Model: m, Go: strings.Join(names, ",")})
 	}
 	// the code TRANSLATED from bootorder.Unmarshal (Gen.lean; theorems C18g_unmarshal*) on the same buffer content,
-	// against the names the real library returned (odd lengths included: the trailing byte is a last entry)
+	// against the names the real library returned (odd lengths included: the trailing byte is not an entry)
 	c.GenTieGo(cs, "bootorder.Unmarshal", strings.Join(names, ","), "gen.bootorder", hx(order))
 }
 
@@ -591,11 +592,8 @@ func c18Gen(c *Ctx) {
 	for i := 0; i < c.N(200, 5000) && c.NFailures() < 8; i++ {
 		k := c.Rng.Intn(65)
 		o := make([]byte, 2*k)
-		// REPORTED FINDING, left out of the routine run: a value of odd length (2k+1 bytes: k entries and a trailing
-		// byte that is no 16-bit entry). Efivarfs.GetBootOrder returns k+1 names - the last one made up from the
-		// trailing byte and a zero byte (order fe16...2cca -> ..., Boot2CC0, Boot00CA) - while efi.GetBootOrder returns
-		// the k names. The oracle in c18EvalOrder judges odd lengths (exactly the names of the entries); to
-		// explore them here use: o = make([]byte, 2*k+1).
+		// even lengths here; the odd ones (2k+1 bytes: k entries and a trailing byte that is no 16-bit entry) are the
+		// 25 orders of the next loop, kept apart so that the random stream of the cases below is what it was
 		c.Rng.Read(o)
 		if c.Rng.Intn(2) == 0 {
 			for j := 1; j < len(o); j += 2 {
@@ -604,9 +602,12 @@ func c18Gen(c *Ctx) {
 		}
 		c18EvalOrder(c, Case{"op": "order", "order": hx(o)})
 	}
-	// odd lengths: a trailing single byte behind 0..24 complete entries (what becomes of it is stated by
-	// C18g_unmarshal_trailing; the naming oracle does not apply, the two ties do). Derived from the index, so that
-	// the random stream of the cases below is what it was.
+	// odd lengths: a trailing single byte behind 0..24 complete entries. It is no entry: the names are those of the
+	// k complete entries and nothing else (naming oracle in c18EvalOrder, matcher c18.odd_length_phantom_entry; model:
+	// C18_names_every; translated code: C18g_unmarshal_trailing), on Efivarfs.GetBootOrder, on the legacy
+	// efi.GetBootOrder and on the two ties. F35 (fixed in b2ed0f9): Efivarfs.GetBootOrder returned k+1 names, the last
+	// one made up from the trailing byte and a zero byte (order fe16...2cca -> ..., Boot2CC0, Boot00CA). Derived from
+	// the index, so that the random stream of the cases below is what it was.
 	for k := 0; k < 25 && c.NFailures() < 8; k++ {
 		o := make([]byte, 2*k+1)
 		for j := range o {
@@ -669,7 +670,7 @@ func c18Gen(c *Ctx) {
 
 func init() {
 	register("C18", &PropDef{
-		Rule:   "all 65536 boot numbers (exhaustive), each resolved through GetBootEntry on an in-memory store holding the firmware-named variable; boot orders of 0..64 entries; the captured Boot#### variables of tests/data/boot; generated load options of 0..5 nodes over PCI, ACPI, hard-drive (signature types GPT, MBR, none and arbitrary, with an equal or a different partition-format byte; partition numbers incl. 0), file-path (ASCII, non-BMP, empty), firmware-file and USB nodes with arbitrary field values, five fixed descriptions and random descriptions (Latin-1, code units with a zero low byte such as U+0100 and U+4E00, other BMP, non-BMP), encoded by an encoder written in the harness from the UEFI specification (the model's Spec encoder is tied to it byte for byte); every captured option and every second generated one [thorough: every one] is also decoded through the other public entry points - ParseEFILoadOption followed by ParseDevicePath, Efivarfs.GetBootEntry on an in-memory store that holds it as Boot0001, and the package-level efi.GetBootEntry - and must give the fields it was built from (captured: what Unmarshal gives); boot orders of odd length are judged (exactly the names of the complete entries) but not generated: Efivarfs.GetBootOrder fails them on the unchanged library (reported); sequences of 2..5 captured and generated load options decoded one after the other into ONE EFILoadOption value (300 sequences [thorough: 6000]; a quarter of the later members cut inside the device path list or down to 0..5 bytes, so that their decode returns an error) with every decoded result kept by the caller (struct copy and FilePath slice): each result must equal the decode of the same bytes into a fresh value and the model's, and every kept result must still read the same after all later decodes, failed ones included. Non-trivial: a non-empty order / an option longer than the minimal one / a sequence of at least two members; distinct = distinct cases.",
+		Rule:   "all 65536 boot numbers (exhaustive), each resolved through GetBootEntry on an in-memory store holding the firmware-named variable; boot orders of 0..64 entries; the captured Boot#### variables of tests/data/boot; generated load options of 0..5 nodes over PCI, ACPI, hard-drive (signature types GPT, MBR, none and arbitrary, with an equal or a different partition-format byte; partition numbers incl. 0), file-path (ASCII, non-BMP, empty), firmware-file and USB nodes with arbitrary field values, five fixed descriptions and random descriptions (Latin-1, code units with a zero low byte such as U+0100 and U+4E00, other BMP, non-BMP), encoded by an encoder written in the harness from the UEFI specification (the model's Spec encoder is tied to it byte for byte); every captured option and every second generated one [thorough: every one] is also decoded through the other public entry points - ParseEFILoadOption followed by ParseDevicePath, Efivarfs.GetBootEntry on an in-memory store that holds it as Boot0001, and the package-level efi.GetBootEntry - and must give the fields it was built from (captured: what Unmarshal gives); boot orders of odd length (a trailing single byte behind 0..24 complete entries, 25 orders) must decode to exactly the names of the complete entries on both accessors (F35 repair: Efivarfs.GetBootOrder made up a last entry from the trailing byte); sequences of 2..5 captured and generated load options decoded one after the other into ONE EFILoadOption value (300 sequences [thorough: 6000]; a quarter of the later members cut inside the device path list or down to 0..5 bytes, so that their decode returns an error) with every decoded result kept by the caller (struct copy and FilePath slice): each result must equal the decode of the same bytes into a fresh value and the model's, and every kept result must still read the same after all later decodes, failed ones included. Non-trivial: a non-empty order / an option longer than the minimal one / a sequence of at least two members; distinct = distinct cases.",
 		Assume: []string{"load options handed to the in-process decoder are complete (truncated ones end the process on the unrepaired tree and are C14's domain), except the failing members of the decode sequences, which are cut inside the description / device path list and must come back as an error"},
 		Eval:   c18Eval, Gen: c18Gen,
 	})
